@@ -4,12 +4,41 @@ SPEC = {
     "parts": [part("c09_total", "asan", ["c09_parse.cpp"], args=["--mode", "total"]),
               part("c09_strict", "asan", ["c09_parse.cpp"], args=["--mode", "strict"]),
               part("c09_layout", "asan", ["c09_parse.cpp"], args=["--mode", "layout"])],
-    "rule": "TBD",
-    "assumptions": [],
+    "rule": "three enumerations on the ASan+UBSan build, every parse in a forked child. (total) every string over a 15-token "
+            "alphabet {colvar, harmonic, name, distance, group1, atomNumbers, '{', '}', LF, CRLF, 1, '#', tab, NUL, 0x80} up to "
+            "length 4 (quick) / 5 (thorough) plus every string of length 5 / 6 over the 12-token alphabet with '#', and every "
+            "single-byte deletion and truncation (thorough: also replacement by 6 bytes) at every offset of every loadable "
+            "repository test input (tests/input_files/*/test.in on the 104-atom deca-alanine system) and 3 own configurations; "
+            "a token string is additionally checked against an independent reading of the syntax (unmatched brace or a "
+            "top-level line that does not start with a global keyword => must be rejected). (strict) at every keyword "
+            "occurrence, brace and value of every corpus file: 3 (thorough 7) misspellings, a copy of the keyword into every "
+            "related (thorough: every) context in which the parser's own keyword registry does not list it, brace deletion / "
+            "duplication / pair swap, value deletion (non-boolean), `abc` for a numeric value, `abc` for the last element of a "
+            "numeric list, a numeric value with `abc` appended; each must be rejected. (layout) 20 rewrites per file (thorough: "
+            "plus all compatible pairs): keyword case x3, tabs, mixed white space, blank lines, comments (plain / containing "
+            "braces and keywords), CRLF, brace-delimited values (one line / split / every value), brace placement x3, boolean "
+            "shorthand and synonyms, two all-together mixes; 3 engine steps on the first trajectory frames must give "
+            "bit-identical values, bias energies, total energy, atom forces and state text. A case is distinct by its "
+            "configuration text; it is non-trivial when that text differs from the unmodified file (every token string is).",
+    "assumptions": ["finite token alphabet and single-byte mutations: nothing is claimed about byte strings outside them",
+                    "corpus = the repository's 89 loadable test inputs (customFunction, torchANN and the residue-based "
+                    "protein_cvs input are left out) + 3 own configurations, on one 104-atom system",
+                    "ASan+UBSan reports count as crashes (exit 97), uncaught C++ exceptions as crashes (exit 96)",
+                    "a number followed by text (`1.0abc`) and a text element at the end of a numeric list are reported under "
+                    "their own signatures, separately from pure text where a number is required"],
 }
 META = {
-  "text": "TBD",
+  "text": "Bounded-exhaustive exploration of the real parser: every string of a small token alphabet up to a length bound and "
+          "every single-byte mutation of every repository test input must return (accept or reject) without signal, hang or "
+          "sanitizer report; every keyword-level mutation site of every test input (misspelling, wrong context, brace, missing "
+          "value, text for number) must be rejected; every documented-free layout rewrite of every test input must reproduce "
+          "values, energies, forces and state bit-for-bit over three engine steps. The quantifier ranges over all byte strings "
+          "and all configurations, so the claim is limited to the stated alphabet, mutation operators and corpus.",
   "design_ref": "DESIGN.md section 3, C09",
-  "note": "TBD",
-  "technique": "TBD",
+  "note": "Trusted: the harness's own tokenizer/serializer of the one-keyword-per-line corpus layout (self-checked: the "
+          "canonical re-serialisation of every file must reproduce the original results bit-for-bit) and its reading of the "
+          "documented syntax rules; the keyword registry harvested from colvarparse::allowed_keywords is used only to choose "
+          "mutation sites, never as the oracle.",
+  "technique": "exhaustive enumeration of token strings, byte mutations, keyword-level mutation sites and layout rewrites "
+               "against crash/hang, must-reject and bit-identity oracles",
 }
